@@ -2,7 +2,7 @@
    handles are released and all threads have finished, leaves every cell deallocated. *)
 From Coq Require Import List Arith ZArith Lia Bool.
 Import ListNotations.
-From GV Require Import Sched Events RcuModel RcuBase RcuListProofs RcuLogProofs RcuSafetyProofs.
+From GV Require Import Sched Events RcuModel RcuBase RcuListProofs RcuLogProofs RcuSafetyProofs RcuLedgerProofs.
 Local Open Scope nat_scope.
 
 Record InvK (g : glob) (ls : list loc) : Prop := {
@@ -619,16 +619,18 @@ Record freed_upto (g g' : glob) (S : list nat) : Prop := {
   fu_in : forall k, In k S -> cs_of g' k = Some Freed;
   fu_out : forall k, ~ In k S -> cs_of g' k = cs_of g k;
   fu_gnode : forall k, gnode g' k = gnode g k; fu_grec : forall k, grec g' k = grec g k;
-  fu_isnode : forall k, isnode g' k = isnode g k; fu_isrec : forall k, isrec g' k = isrec g k
+  fu_isnode : forall k, isnode g' k = isnode g k; fu_isrec : forall k, isrec g' k = isrec g k;
+  fu_led : fault g = false -> ledger_ok g -> ledger_ok g'
 }.
 Lemma fu_refl g : freed_upto g g [].
 Proof. constructor; auto; intros k []. Qed.
 Lemma fu_trans g g1 g2 S1 S2 : freed_upto g g1 S1 -> freed_upto g1 g2 S2 -> freed_upto g g2 (S1 ++ S2).
 Proof.
-  intros [A B C D E F G0 H0 I0 J K L] [A' B' C' D' E' F' G' H' I' J' K' L']. constructor; try congruence.
+  intros [A B C D E F G0 H0 I0 J K L M] [A' B' C' D' E' F' G' H' I' J' K' L' M']. constructor; try congruence.
   - intros k Hk. destruct (in_dec Nat.eq_dec k S2) as [H2|H2]; [apply G'; exact H2|].
     rewrite (H' k H2). apply G0. apply in_app_or in Hk. tauto.
   - intros k Hk. rewrite H', H0; auto; intros H; apply Hk; apply in_or_app; auto.
+  - intros Hf HL. apply M'; [congruence|apply M; auto].
 Qed.
 (* destroy + deallocate of one constructed cell *)
 Lemma fu_one g k : cs_of g k = Some Constr ->
@@ -650,6 +652,10 @@ Proof.
   - intros j. unfold g2. rewrite grec_dealloc. apply grec_destroy.
   - intros j. unfold g2. rewrite isnode_dealloc. apply isnode_destroy.
   - intros j. unfold g2. rewrite isrec_dealloc. apply isrec_destroy.
+  - intros Hf HL.
+    assert (fault g1 = false) as Hf1 by (rewrite F12, Hk1, Hf; reflexivity).
+    assert (fault g2 = false) as Hf2 by (rewrite E12, Hk2, Hf1; reflexivity).
+    apply ledger_dealloc; auto. apply ledger_destroy; auto.
 Qed.
 
 Lemma okn_fu g g' S k : freed_upto g g' S -> ~ In k S -> okn g' k = okn g k.
@@ -699,6 +705,16 @@ Proof.
     exists z. split; [exact Hz|]. apply in_or_app. left. rewrite E. left. reflexivity.
 Qed.
 
+
+Lemma NoDup_app_parts {A} (a b : list A) : NoDup (a ++ b) -> NoDup a /\ NoDup b /\ forall x, In x a -> ~ In x b.
+Proof.
+  induction a as [|x r IH]; cbn; intros H.
+  - repeat split; auto. constructor.
+  - apply NoDup_cons_iff in H. destruct H as [Hx H]. destruct (IH H) as (A1 & A2 & A3). repeat split; auto.
+    + constructor; [intros Hi; apply Hx; apply in_or_app; auto|exact A1].
+    + intros y [<-|Hy] Hb; [apply Hx; apply in_or_app; auto|apply (A3 y Hy Hb)].
+Qed.
+
 Lemma dl_recs_spec ch : forall fuel g, rchn g ch -> NoDup (dset g ch) ->
   (forall z, In z ch -> okz g z = true /\ zown g z = None) ->
   (forall z d, In z ch -> znd g z = Some d -> okn g d = true) ->
@@ -711,30 +727,274 @@ Proof.
     destruct (Hz a (or_introl eq_refl)) as [Oa Wa]. rewrite Oa. cbn [acc_line]. unfold zown in Wa. rewrite Wa.
     cbn [rchn] in Hc. destruct Hc as [Hn Hc]. unfold znx in Hn.
     assert (Hca : cs_of g a = Some Constr) by (apply okz_iff; exact Oa).
-    (* the node of the record *)
-    assert (exists g2 l2, (match znode (grec g a) with
-             | Some d => let '(ga, ea) := do_destroy g d in let '(gb, eb) := do_dealloc ga d in (gb, fl_of ea d ++ fl_of eb d)
-             | None => if unfixed g then (with_fault g, [[(-2)%Z; K_FAULT; 0%Z; 2%Z]]) else (g, [])
-             end) = (g2, l2) /\ freed_upto g g2 (o2l (znd g a)) /\ cs_of g2 a = Some Constr) as (g2 & l2 & E2 & F2 & Ca2).
-    { unfold znd. destruct (znode (grec g a)) as [d|] eqn:Ed.
-      - assert (okn g d = true) as Od by (apply (Hd a d (or_introl eq_refl)); unfold znd; exact Ed).
-        assert (cs_of g d = Some Constr) as Cd by (apply okn_iff; exact Od).
-        pose proof (fu_one g d Cd) as F. destruct (do_destroy g d) as [ga ea]. cbn [fst] in F. destruct (do_dealloc ga d) as [gb eb]. cbn [fst] in F.
-        exists gb, (fl_of ea d ++ fl_of eb d). split; [reflexivity|]. split; [exact F|].
-        rewrite (fu_out _ _ _ F a); [exact Hca|]. intros [E|[]]. subst d.
-        (* a is a record, d a node *)
-        apply okn_iff in Od. apply okz_iff in Oa. destruct Od as [_ O1]. destruct Oa as [_ O2]. rewrite (isnode_isrec _ _ O1) in O2. discriminate.
-      - rewrite Hu. exists g, []. split; [reflexivity|]. split; [apply fu_refl|exact Hca]. }
-    cbn zeta in E2. rewrite Hu in *.
-    match goal with |- context [match znode (grec g a) with Some d => _ | None => _ end] => idtac end.
-    destruct (znode (grec g a)) as [d|] eqn:Ed.
-    all: rewrite E2.
-    all: destruct (do_destroy g2 a) as [g3 e3] eqn:E3; destruct (do_dealloc g3 a) as [g4 e4] eqn:E4.
-    all: destruct (dl_recs f g4 (znext (grec g a))) as [g5 l5] eqn:E5; cbn [fst].
-    all: pose proof (fu_one g2 a Ca2) as F3; rewrite E3 in F3; cbn [fst] in F3; rewrite E4 in F3; cbn [fst] in F3.
-    all: pose proof (fu_trans g g2 g4 _ _ F2 F3) as F4.
-    all: assert (EG : forall z, grec g4 z = grec g z) by (apply (fu_grec _ _ _ F4)).
-    all: specialize (IH f g4); rewrite (dset_ext g g4 r EG) in IH; rewrite <- Hn in IH; rewrite E5 in IH; cbn [fst] in IH.
-    all: assert (Hds : dset g (a :: r) = (o2l (znd g a) ++ [a]) ++ dset g r) by reflexivity.
-    all: rewrite Hds in *; apply (fu_trans g g4 g5 _ _ F4); apply NoDup_app_split in ND.
-  Abort.
+    assert (Hds : dset g (a :: r) = (o2l (znd g a) ++ [a]) ++ dset g r) by reflexivity.
+    rewrite Hds in *. destruct (NoDup_app_parts _ _ ND) as (ND1 & ND2 & ND3).
+    assert (Tail : forall g4, freed_upto g g4 (o2l (znd g a) ++ [a]) ->
+                   freed_upto g (fst (dl_recs f g4 (znext (grec g a)))) ((o2l (znd g a) ++ [a]) ++ dset g r)).
+    { intros g4 F4. assert (EG : forall z, grec g4 z = grec g z) by (apply (fu_grec _ _ _ F4)).
+      apply (fu_trans g g4 _ _ _ F4). rewrite <- (dset_ext g g4 r EG). rewrite Hn. apply IH.
+      - apply (rchn_ext g g4 r EG Hc).
+      - rewrite (dset_ext g g4 r EG). exact ND2.
+      - intros z Hzr. destruct (Hz z (or_intror Hzr)) as [A B]. unfold zown. rewrite EG. split; [|exact B].
+        rewrite (okz_fu g g4 _ z F4); [exact A|]. intros Hi. apply (ND3 z Hi). apply dset_In. left. exact Hzr.
+      - intros z d Hzr Hzd. unfold znd in Hzd. rewrite EG in Hzd. rewrite (okn_fu g g4 _ d F4); [apply (Hd z d (or_intror Hzr) Hzd)|].
+        intros Hi. apply (ND3 d Hi). apply dset_In. right. exists z. auto.
+      - rewrite (fu_unf _ _ _ F4). exact Hu.
+      - cbn in Hf. lia. }
+    unfold znd in *. destruct (znode (grec g a)) as [d|] eqn:Ed.
+    + assert (okn g d = true) as Od by (apply (Hd a d (or_introl eq_refl)); exact Ed).
+      assert (cs_of g d = Some Constr) as Cd by (apply okn_iff; exact Od).
+      pose proof (fu_one g d Cd) as F. destruct (do_destroy g d) as [ga ea]. cbn [fst] in F. destruct (do_dealloc ga d) as [gb eb]. cbn [fst] in F.
+      assert (d <> a) as Hda. { intros ->. cbn in ND1. apply NoDup_cons_iff in ND1. apply (proj1 ND1). left. reflexivity. }
+      assert (cs_of gb a = Some Constr) as Ca2 by (rewrite (fu_out _ _ _ F a); [exact Hca|intros [E|[]]; auto]).
+      pose proof (fu_one gb a Ca2) as F3. destruct (do_destroy gb a) as [g3 e3]. cbn [fst] in F3. destruct (do_dealloc g3 a) as [g4 e4]. cbn [fst] in F3.
+      pose proof (fu_trans g gb g4 _ _ F F3) as F4. cbn [o2l app] in *.
+      specialize (Tail g4 F4). destruct (dl_recs f g4 (znext (grec g a))) as [g5 l5]. cbn [fst] in *. exact Tail.
+    + rewrite Hu. pose proof (fu_one g a Hca) as F3. destruct (do_destroy g a) as [g3 e3]. cbn [fst] in F3. destruct (do_dealloc g3 a) as [g4 e4]. cbn [fst] in F3.
+      cbn [o2l app] in *. specialize (Tail g4 F3). destruct (dl_recs f g4 (znext (grec g a))) as [g5 l5]. cbn [fst] in *. exact Tail.
+Qed.
+
+Lemma stamp_app_notin l1 l z : ~ In z l1 -> stamp (l1 ++ l) z = stamp l z.
+Proof.
+  induction l1 as [|x r IH]; cbn; intros H; [reflexivity|]. destruct (Nat.eqb_spec x z) as [->|]; [exfalso; auto|apply IH; tauto].
+Qed.
+Lemma stamp_after l1 a l2 c : NoDup (l1 ++ a :: l2) -> In c l2 -> stamp (l1 ++ a :: l2) c < stamp (l1 ++ a :: l2) a.
+Proof.
+  intros ND Hc. destruct (NoDup_mid _ _ _ ND) as (A1 & A2 & ND').
+  assert (~ In c l1) as Hc1.
+  { intros H. destruct (NoDup_app_parts _ _ ND') as (_ & _ & N3). apply (N3 c H Hc). }
+  rewrite !stamp_app_notin by auto. cbn. rewrite Nat.eqb_refl. destruct (Nat.eqb_spec a c) as [->|]; [contradiction|].
+  pose proof (stamp_le l2 c). lia.
+Qed.
+Lemma stamp_lt_after l1 a l2 c : NoDup (l1 ++ a :: l2) -> In c (l1 ++ a :: l2) ->
+  stamp (l1 ++ a :: l2) c < stamp (l1 ++ a :: l2) a -> In c l2.
+Proof.
+  intros ND Hc Hlt. apply in_app_or in Hc. destruct Hc as [Hc|[->|Hc]]; [exfalso|lia|exact Hc].
+  (* c before a: then a is after c, so stamp a < stamp c *)
+  destruct (in_split _ _ Hc) as (p1 & p2 & E). subst l1. rewrite <- app_assoc in *. cbn [app] in *.
+  assert (In a (p2 ++ a :: l2)) as Ha by (apply in_or_app; right; left; reflexivity).
+  pose proof (stamp_after p1 c (p2 ++ a :: l2) a ND Ha). lia.
+Qed.
+
+Definition liveb (g : glob) (z : nat) : bool := match cs_of g z with Some Freed => false | _ => true end.
+Lemma liveb_inlog g z : In z (zlog g) -> (liveb g z = true <-> inlog g z).
+Proof. intros H. unfold liveb, inlog. destruct (cs_of g z) as [[]|]; split; intros; try tauto; try discriminate; split; auto; discriminate. Qed.
+
+Lemma rchn_filter g : NoDup (zlog g) -> (forall a, inlog g a -> link_ok g a) ->
+  forall r pre, zlog g = pre ++ r -> rchn g (filter (liveb g) r).
+Proof.
+  intros ND HL. induction r as [|a r IH]; intros pre E; [exact I|].
+  assert (E' : zlog g = (pre ++ [a]) ++ r) by (rewrite <- app_assoc; exact E).
+  specialize (IH (pre ++ [a]) E'). cbn [filter]. destruct (liveb g a) eqn:La; [|exact IH]. cbn [rchn]. split; [|exact IH].
+  assert (Ha : In a (zlog g)) by (rewrite E; apply in_or_app; right; left; reflexivity).
+  pose proof (HL a (proj1 (liveb_inlog g a Ha) La)) as L. unfold link_ok in L.
+  assert (Hr : forall c, In c r -> In c (zlog g) /\ zsq g c < zsq g a).
+  { intros c Hc. split; [rewrite E; apply in_or_app; right; right; exact Hc|]. unfold zsq. rewrite E. apply stamp_after; [rewrite <- E; exact ND|exact Hc]. }
+  destruct (znx g a) as [b|] eqn:Eb.
+  - destruct L as (Lb & Llt & Lbt).
+    assert (In b r) as Hbr.
+    { apply (stamp_lt_after pre a r b); [rewrite <- E; exact ND|rewrite <- E; apply (inlog_In _ _ Lb)|unfold zsq in Llt; rewrite E in Llt; exact Llt]. }
+    assert (In b (filter (liveb g) r)) as Hbf by (apply filter_In; split; [exact Hbr|apply (liveb_inlog g b (inlog_In _ _ Lb)); exact Lb]).
+    destruct (filter (liveb g) r) as [|b0 fr] eqn:Ef; [destruct Hbf|]. cbn. f_equal.
+    destruct (Nat.eq_dec b b0) as [|Hne]; [assumption|exfalso].
+    assert (In b0 (filter (liveb g) r)) as Hb0 by (rewrite Ef; left; reflexivity).
+    apply filter_In in Hb0. destruct Hb0 as [Hb0r Hb0l]. destruct (Hr b0 Hb0r) as [Hb0z Hb0lt].
+    (* b0 is before b in r, so zsq b < zsq b0 < zsq a *)
+    destruct Hbf as [Hbf|Hbf]; [congruence|].
+    assert (In b fr) as Hbfr by exact Hbf.
+    (* split r at b0 *)
+    destruct (in_split _ _ Hb0r) as (r1 & r2 & Er).
+    assert (In b r2) as Hb2.
+    { assert (In b (filter (liveb g) r1 ++ b0 :: filter (liveb g) r2)) as Hx.
+      { rewrite Er in Ef. rewrite filter_app in Ef. cbn [filter] in Ef. rewrite Hb0l in Ef.
+        assert (filter (liveb g) r1 = []) as E1.
+        { destruct (filter (liveb g) r1) as [|y ys] eqn:Ey; [reflexivity|]. cbn in Ef. inversion Ef. subst y.
+          (* b0 in r1 and at the split point: contradicts NoDup *)
+          assert (In b0 r1) as Hy by (assert (In b0 (filter (liveb g) r1)) as Hq by (rewrite Ey; left; reflexivity); apply filter_In in Hq; tauto).
+          exfalso. assert (NoDup r) as NDr by (rewrite E in ND; apply NoDup_app_parts in ND; destruct ND as (_ & N2 & _); apply NoDup_cons_iff in N2; tauto).
+          rewrite Er in NDr. apply NoDup_remove_2 in NDr. apply NDr. apply in_or_app. left. exact Hy. }
+        rewrite E1 in Ef |- *. cbn in Ef |- *. inversion Ef. right. rewrite H0. exact Hbfr. }
+      apply in_app_or in Hx. destruct Hx as [Hx|[Hx|Hx]]; [|congruence|apply filter_In in Hx; tauto].
+      exfalso. rewrite Er in Ef. rewrite filter_app in Ef. destruct (filter (liveb g) r1) as [|y ys] eqn:Ey; [destruct Hx|].
+      cbn in Ef. inversion Ef. subst y.
+      assert (In b0 r1) as Hy by (assert (In b0 (filter (liveb g) r1)) as Hq by (rewrite Ey; left; reflexivity); apply filter_In in Hq; tauto).
+      assert (NoDup r) as NDr by (rewrite E in ND; apply NoDup_app_parts in ND; destruct ND as (_ & N2 & _); apply NoDup_cons_iff in N2; tauto).
+      rewrite Er in NDr. apply NoDup_remove_2 in NDr. apply NDr. apply in_or_app. left. exact Hy. }
+    assert (zsq g b < zsq g b0) as Hbb0.
+    { unfold zsq. rewrite E, Er. replace (pre ++ a :: r1 ++ b0 :: r2) with ((pre ++ a :: r1) ++ b0 :: r2) by (rewrite <- app_assoc; reflexivity).
+      apply stamp_after; [|exact Hb2]. rewrite <- app_assoc. cbn. rewrite <- Er, <- E. exact ND. }
+    apply (Lbt b0); [apply (liveb_inlog g b0 Hb0z); exact Hb0l|lia].
+  - destruct (filter (liveb g) r) as [|b0 fr] eqn:Ef; [reflexivity|exfalso].
+    assert (In b0 (filter (liveb g) r)) as Hb0 by (rewrite Ef; left; reflexivity).
+    apply filter_In in Hb0. destruct Hb0 as [Hb0r Hb0l]. destruct (Hr b0 Hb0r) as [Hb0z Hb0lt].
+    apply (L b0); [apply (liveb_inlog g b0 Hb0z); exact Hb0l|exact Hb0lt].
+Qed.
+
+Lemma R_InvK unf progs s : R unf progs s -> InvK (gl s) (thr s).
+Proof.
+  intros H.
+  assert (Inv3 (gl s) (thr s) /\ InvK (gl s) (thr s)) as [_ K]; [|exact K].
+  eapply (reachable_inv glob loc tstep (fun g ls => Inv3 g ls /\ InvK g ls)); [| |exact H].
+  - intros g ls t c l g' l' es HH Hl Hs. destruct HH as [I3 IK]. split; [eapply Inv3_step; eauto|eapply InvK_step; eauto].
+  - split; [split; [apply InvA_init|split; [apply InvB_init|apply InvC_init]]|].
+    constructor.
+    + intros k Hk. unfold isnode, getc in Hk. cbn in Hk. destruct k; discriminate.
+    + intros k Hk. unfold isnode, getc in Hk. cbn in Hk. destruct k; discriminate.
+    + intros k Hk. unfold isnode, getc in Hk. cbn in Hk. destruct k; discriminate.
+    + intros z Hz. unfold isrec, getc in Hz. cbn in Hz. destruct z; discriminate.
+Qed.
+
+(* all threads have finished and every handle has been released *)
+Definition quiet (s : sysR) : Prop := all_fin glob loc fin s = true /\ forall l, In l (thr s) -> hnd l = None.
+
+Section Quiet.
+  Variable s : sysR.
+  Let g := gl s. Let ls := thr s.
+  Hypothesis I3 : Inv3 g ls.
+  Hypothesis IK : InvK g ls.
+  Hypothesis Hu : unfixed g = false.
+  Hypothesis Q : quiet s.
+
+  Lemma q_loc u : at_ (locof ls u) = Idle /\ hnd (locof ls u) = None.
+  Proof.
+    unfold locof. destruct (nth_error ls u) as [l|] eqn:E; [|split; reflexivity].
+    destruct Q as [Qf Qh]. pose proof (nth_error_In _ _ E) as Hi. split; [|apply Qh; exact Hi].
+    unfold all_fin in Qf. rewrite forallb_forall in Qf. specialize (Qf l Hi). unfold fin in Qf. destruct (at_ l); try discriminate. reflexivity.
+  Qed.
+  Lemma q_pc u : pcof ls u = Idle.
+  Proof. apply q_loc. Qed.
+  Lemma q_hpc : hpc g ls = Idle.
+  Proof. unfold hpc. destruct (wmtx g); [apply q_pc|reflexivity]. Qed.
+  Lemma q_unowned z : inlog g z -> zown g z = None.
+  Proof.
+    intros Hz. destruct I3 as (IA & IB & IC). destruct (zown g z) as [gd|] eqn:E; [|reflexivity].
+    destruct (b_own2 _ _ IB z gd Hz E) as (u & w & _ & H). rewrite (proj2 (q_loc u)) in H. discriminate.
+  Qed.
+  Lemma q_link a : inlog g a -> link_ok g a.
+  Proof.
+    intros Ha. destruct I3 as (IA & IB & IC). apply (b_link _ _ IB a Ha). intros (u & w & H & _). rewrite (proj2 (q_loc u)) in H. discriminate.
+  Qed.
+  Lemma q_rec_constr z : inlog g z -> okz g z = true.
+  Proof.
+    intros [A B]. destruct I3 as (IA & IB & IC). apply okz_iff. split; [|apply (b_rec _ _ IB z A)].
+    destruct (b_cs _ _ IB z A) as [C|[C|(C & u & nxt & D)]]; [exact C|congruence|]. rewrite q_pc in D. discriminate.
+  Qed.
+  Lemma q_node_of z d : inlog g z -> znd g z = Some d -> okn g d = true /\ ~ In d (lst g).
+  Proof.
+    intros Hz Hd. destruct I3 as (IA & IB & IC). destruct (c_recn _ _ IC z d (inlog_In _ _ Hz) Hd) as (A & B & C).
+    split; [|exact C]. apply okn_iff. split; [|exact A]. apply (c_pend _ _ IC z d Hz Hd). intros u. rewrite q_pc. reflexivity.
+  Qed.
+End Quiet.
+
+Lemma NoDup_dset g ch : NoDup ch ->
+  (forall z z' d, In z ch -> In z' ch -> znd g z = Some d -> znd g z' = Some d -> z = z') ->
+  (forall z d, In z ch -> znd g z = Some d -> ~ In d ch) ->
+  NoDup (dset g ch).
+Proof.
+  induction ch as [|a r IH]; intros ND Hu Hn; [constructor|].
+  apply NoDup_cons_iff in ND. destruct ND as [Ha ND].
+  assert (NoDup (dset g r)) as NDr.
+  { apply IH; auto.
+    - intros z z' d Hz Hz'. apply Hu; right; auto.
+    - intros z d Hz Hd Hi. apply (Hn z d (or_intror Hz) Hd). right. exact Hi. }
+  change (dset g (a :: r)) with ((o2l (znd g a) ++ [a]) ++ dset g r).
+  assert (Hna : ~ In a (dset g r)).
+  { intros Hi. apply dset_In in Hi. destruct Hi as [Hi|(z & Hz & Hd)]; [auto|]. apply (Hn z a (or_intror Hz) Hd). left. reflexivity. }
+  destruct (znd g a) as [d|] eqn:Ed; cbn [o2l app].
+  - assert (d <> a) as Hda by (intros ->; apply (Hn a a (or_introl eq_refl) Ed); left; reflexivity).
+    assert (~ In d (dset g r)) as Hnd.
+    { intros Hi. apply dset_In in Hi. destruct Hi as [Hi|(z & Hz & Hd)].
+      - apply (Hn a d (or_introl eq_refl) Ed). right. exact Hi.
+      - assert (a = z) by (apply (Hu a z d (or_introl eq_refl) (or_intror Hz) Ed Hd)). subst z. auto. }
+    constructor; [intros [E|Hi]; [auto|auto]|]. constructor; auto.
+  - constructor; auto.
+Qed.
+
+Lemma filter_len_le {A} (f : A -> bool) l : length (filter f l) <= length l.
+Proof. induction l as [|a r IH]; cbn; [lia|]. destruct (f a); cbn; lia. Qed.
+Lemma hd_filter_top g : forall l h, hd_opt l = Some h -> liveb g h = true -> hd_opt (filter (liveb g) l) = Some h.
+Proof. intros l h E L. destruct l as [|x r]; [discriminate|]. cbn in E. inversion E; subst x. cbn. rewrite L. reflexivity. Qed.
+
+Theorem destroy_all (s : sysR) :
+  Inv3 (gl s) (thr s) -> InvK (gl s) (thr s) -> unfixed (gl s) = false -> fault (gl s) = false -> quiet s ->
+  let g' := fst (destroy_list (gl s)) in
+  fault g' = false /\ (ledger_ok (gl s) -> ledger_ok g') /\ forall k c, getc g' k = Some c -> cs c = Freed.
+Proof.
+  intros I3 IK Hu Hf Q.
+  pose proof (q_hpc s Q) as Qh. pose proof (q_pc s Q) as Qp. pose proof (q_unowned s I3 Q) as Qu. pose proof (q_link s I3 Q) as Ql.
+  pose proof (q_rec_constr s I3 Q) as Qr. pose proof (q_node_of s I3 Q) as Qn.
+  set (g := gl s) in *. set (ls := thr s) in *.
+  pose proof I3 as (IA & IB & IC). pose proof (a_gs _ _ IA) as G. rewrite Qh in G.
+  unfold destroy_list. set (fuel := S (length (heap g))).
+  (* phase 1: the nodes of the list *)
+  assert (F1 : freed_upto g (fst (dl_nodes fuel g (head g))) (lst g)).
+  { destruct (gs_fwd _ _ G) as [Hh Hc]. rewrite Hh. apply dl_nodes_spec; auto.
+    - apply (gs_nodup _ _ G).
+    - intros k Hk. apply (lst_okn g ls k IA IC Hk).
+    - assert (length (lst g) <= nheap g) by (apply NoDup_length_le; [apply (gs_nodup _ _ G)|intros k Hk; apply (lst_lt g _ k G Hk)]).
+      unfold fuel, nheap in *. lia. }
+  destruct (dl_nodes fuel g (head g)) as [g1 l1]. cbn [fst] in F1.
+  (* phase 2: the log *)
+  set (ch := filter (liveb g) (zlog g)).
+  assert (Hch : forall z, In z ch <-> inlog g z).
+  { intros z. unfold ch. rewrite filter_In. split; [intros [A B]; apply (liveb_inlog g z A); exact B|intros H; split; [apply (inlog_In _ _ H)|apply (liveb_inlog g z (inlog_In _ _ H)); exact H]]. }
+  assert (EG : forall z, grec g1 z = grec g z) by (apply (fu_grec _ _ _ F1)).
+  assert (Hrl : forall z, In z ch -> ~ In z (lst g)).
+  { intros z Hz Hl. apply Hch in Hz. pose proof (b_rec _ _ IB z (inlog_In _ _ Hz)) as R. pose proof (gs_nodes _ _ G z Hl) as N. rewrite (isnode_isrec _ _ N) in R. discriminate. }
+  assert (Ehd : zhead g1 = hd_opt ch).
+  { rewrite (fu_zhead _ _ _ F1). pose proof (b_head _ _ IB) as Eh. destruct (zhead g) as [h|] eqn:Ez.
+    - symmetry. apply hd_filter_top; [symmetry; exact Eh|]. unfold liveb. rewrite (b_top _ _ IB h Ez). reflexivity.
+    - unfold ch. destruct (zlog g); [reflexivity|discriminate]. }
+  assert (F2 : freed_upto g1 (fst (dl_recs fuel g1 (zhead g1))) (dset g1 ch)).
+  { rewrite Ehd. apply dl_recs_spec.
+    - apply (rchn_ext g g1 ch EG). apply (rchn_filter g (b_nodup _ _ IB) Ql (zlog g) []). reflexivity.
+    - rewrite (dset_ext g g1 ch EG). apply NoDup_dset.
+      + apply NoDup_filter. apply (b_nodup _ _ IB).
+      + intros z z' d Hz Hz'. apply Hch in Hz. apply Hch in Hz'. apply (c_uniq _ _ IC z z' d (inlog_In _ _ Hz) (inlog_In _ _ Hz')).
+      + intros z d Hz Hd Hi. apply Hch in Hz. apply Hch in Hi.
+        pose proof (b_node _ _ IB z d (inlog_In _ _ Hz) Hd) as N. pose proof (b_rec _ _ IB d (inlog_In _ _ Hi)) as R. rewrite (isnode_isrec _ _ N) in R. discriminate.
+    - intros z Hz. unfold zown. rewrite EG. split; [|apply (Qu z); apply Hch; exact Hz].
+      rewrite (okz_fu g g1 _ z F1 (Hrl z Hz)). apply (Qr z). apply Hch. exact Hz.
+    - intros z d Hz Hd. unfold znd in Hd. rewrite EG in Hd. apply Hch in Hz. destruct (Qn z d Hz Hd) as [A B].
+      rewrite (okn_fu g g1 _ d F1 B). exact A.
+    - rewrite (fu_unf _ _ _ F1). exact Hu.
+    - assert (length ch <= length (zlog g)) by (unfold ch; apply filter_len_le).
+      assert (length (zlog g) <= nheap g) by (apply NoDup_length_le; [apply (b_nodup _ _ IB)|intros k Hk; apply (zlog_lt g ls k IB Hk)]).
+      unfold fuel, nheap in *. lia. }
+  destruct (dl_recs fuel g1 (zhead g1)) as [g2 l2]. cbn [fst] in *.
+  rewrite (dset_ext g g1 ch EG) in F2.
+  split; [rewrite (fu_fault _ _ _ F2), (fu_fault _ _ _ F1); exact Hf|].
+  split; [intros HL; apply (fu_led _ _ _ F2); [rewrite (fu_fault _ _ _ F1); exact Hf|apply (fu_led _ _ _ F1); auto]|].
+  intros k c Hc.
+  assert (cs_of g2 k = Some Freed) as Hfr; [|unfold cs_of in Hfr; rewrite Hc in Hfr; cbn in Hfr; congruence].
+  assert (k < nheap g) as Hk by (rewrite <- (fu_n _ _ _ F1), <- (fu_n _ _ _ F2); eapply getc_lt; eauto).
+  destruct (in_dec Nat.eq_dec k (dset g ch)) as [Hd|Hd]; [apply (fu_in _ _ _ F2 k Hd)|].
+  rewrite (fu_out _ _ _ F2 k Hd).
+  destruct (in_dec Nat.eq_dec k (lst g)) as [Hl|Hl]; [apply (fu_in _ _ _ F1 k Hl)|].
+  rewrite (fu_out _ _ _ F1 k Hl).
+  (* k is neither in the list nor on the live log nor a node of a live record: it was freed before *)
+  destruct (getc g k) as [[st [nb|rb] a1 a2 a3]|] eqn:Eg; [| |apply getc_ge in Eg || (exfalso; apply nth_error_None in Eg; unfold nheap in Hk; lia)].
+  - assert (isnode g k = true) as Hn by (unfold isnode; rewrite Eg; reflexivity).
+    assert (cs_of g k = Some st) as Hs by (unfold cs_of; rewrite Eg; reflexivity). rewrite Hs. destruct st; [| | |reflexivity]; exfalso.
+    + destruct (k_alloc _ _ IK k Hn Hs) as [o E]. rewrite Qh in E. discriminate.
+    + destruct (k_constr _ _ IK k Hn Hs) as [E|[E|[E|(z & Z1 & Z2)]]]; [auto|rewrite Qh in E; discriminate|unfold enode in E; rewrite Qh in E; discriminate|].
+      apply Hd. apply dset_In. right. exists z. split; [apply Hch; exact Z1|exact Z2].
+    + destruct (k_destr _ _ IK k Hn Hs) as (u & z & E). rewrite (Qp u) in E. discriminate.
+  - assert (isrec g k = true) as Hr by (unfold isrec; rewrite Eg; reflexivity).
+    assert (cs_of g k = Some st) as Hs by (unfold cs_of; rewrite Eg; reflexivity). rewrite Hs.
+    destruct (k_rec _ _ IK k Hr) as [Hz|(u & E)]; [|rewrite (Qp u) in E; discriminate].
+    destruct st; [| | |reflexivity]; exfalso; apply Hd; apply dset_In; left; apply Hch; split; auto; rewrite Hs; discriminate.
+Qed.
+
+(* C13, no leak: after every thread has finished and every handle has been released, ~rcu_list frees
+   everything that is still allocated, without a fault *)
+Theorem exactly_once progs s : R false progs s -> quiet s ->
+  let g' := fst (destroy_list (gl s)) in
+  fault g' = false /\
+  forall k c, getc g' k = Some c -> cs c = Freed /\ nct c = 1 /\ ndt c = 1 /\ nfr c = 1.
+Proof.
+  intros HR Q. destruct (R_Inv4 _ _ HR) as (I3 & Hu & Hf).
+  destruct (destroy_all s I3 (R_InvK _ _ _ HR) Hu Hf Q) as (A & B & C). split; [exact A|].
+  intros k c Hc. pose proof (C k c Hc) as E. split; [exact E|].
+  pose proof (B (R_ledger _ _ HR) k c Hc) as L. unfold cell_ok in L. rewrite E in L. exact L.
+Qed.
